@@ -3,7 +3,8 @@
 //! REF supervisory bookkeeping, LOG exactly-once compliance hooks, RES after failures.
 //! The same history engine, in conservation mode, serves C01's RWA flavour.
 use crate::args;
-use crate::contracts::rwa::{HookCall, MockCompliance, MockIdentity, RwaTok};
+use crate::contracts::rwa::{HookCall, MockCompliance, MockIdentity, MockModule, RealCompliance, RwaTok};
+use stellar_tokens::rwa::compliance::ComplianceHook;
 use crate::obs;
 use crate::report::Report;
 use crate::rng::Rng;
@@ -367,6 +368,77 @@ fn gate_sweep(cfg: &Cfg, rep: &mut Report) {
     }
 }
 
+
+// ------------------------------------------------------------------ the library's compliance dispatcher
+/// RWA token wired to a compliance contract built from `compliance::storage` with three scripted,
+/// logging modules: a movement passes iff NO registered module denies it, and every module registered
+/// for a state hook is notified exactly once, with the exact parties and amount.
+fn real_dispatcher(cfg: &Cfg, rep: &mut Report) {
+    let mut k = 0u64;
+    for ep in ["transfer", "transfer_from", "mint", "burn", "forced_transfer"] {
+        for deny_mask in 0u32..8 {
+            for reg_mask in [0b111u32, 0b101, 0b011, 0b000] {
+                k += 1;
+                let h = 40_000 + k;
+                if h % cfg.nshards as u64 != cfg.shard as u64 || !cfg.runs(h) {
+                    continue;
+                }
+                rep.begin_history(h);
+                let w = World::new(100, 16);
+                let e = &w.env;
+                e.mock_all_auths();
+                let comp = e.register(RealCompliance, ());
+                let idv = e.register(MockIdentity, ());
+                let tok = e.register(RwaTok, (comp.clone(), idv.clone()));
+                invoke::<()>(e, &comp, "bind", args!(e, tok.clone())).unwrap();
+                let mods: Vec<Address> = (0..3).map(|_| e.register(MockModule, ())).collect();
+                let u = w.accounts(3);
+                // open gates first: fund and approve with nothing registered
+                invoke::<()>(e, &tok, "mint", args!(e, u[0], 1000i128)).expect("setup mint");
+                invoke::<()>(e, &tok, "approve", args!(e, u[0], u[2], 1000i128, w.ledger() + 100)).expect("setup approve");
+                let registered: Vec<usize> = (0..3).filter(|i| reg_mask >> i & 1 == 1).collect();
+                for i in &registered {
+                    for hk in [ComplianceHook::CanTransfer, ComplianceHook::CanCreate, ComplianceHook::Transferred, ComplianceHook::Created, ComplianceHook::Destroyed] {
+                        invoke::<()>(e, &comp, "add_module_to", args!(e, hk, mods[*i].clone())).unwrap();
+                    }
+                }
+                for i in 0..3 {
+                    let d = deny_mask >> i & 1 == 1;
+                    invoke::<()>(e, &mods[i], "set_flags", args!(e, d, d)).unwrap();
+                }
+                let denies = registered.iter().any(|i| deny_mask >> i & 1 == 1);
+                let (f, a, gated, kind, pa, pb): (&str, _, bool, u32, usize, usize) = match ep {
+                    "transfer" => ("transfer", args!(e, u[0], u[1], 10i128), true, 0, 0, 1),
+                    "transfer_from" => ("transfer_from", args!(e, u[2], u[0], u[1], 10i128), true, 0, 0, 1),
+                    "mint" => ("mint", args!(e, u[1], 10i128), true, 1, 1, 1),
+                    "burn" => ("burn", args!(e, u[0], 10i128), false, 2, 0, 0),
+                    _ => ("forced_transfer", args!(e, u[0], u[1], 10i128), false, 0, 0, 1),
+                };
+                e.mock_all_auths();
+                let got: Result<Val, Fail> = invoke(e, &tok, f, a);
+                rep.evaluations += 1;
+                let want = !(gated && denies);
+                rep.op(format!("{ep} with modules registered {registered:?}, denying mask {deny_mask:03b} -> {}", tag(&got)));
+                rep.case(format!("dispatcher/{ep}/reg={reg_mask:03b}/deny={deny_mask:03b}/{}", tag(&got)));
+                rep.count(&format!("dispatcher:{}", if got.is_ok() { "ok" } else { "refused" }));
+                if got.is_ok() && gated {
+                    rep.check("gate", !denies, &format!("C04/gate/{ep}/passed-although-a-compliance-module-denies"), || {
+                        format!("{ep} succeeded; registered modules {registered:?}, deny mask {deny_mask:03b}")
+                    });
+                }
+                rep.check("ref", got.is_ok() == want, &format!("C04/ref/dispatcher/{ep}/outcome"), || format!("{ep}: registered {registered:?} deny mask {deny_mask:03b}: expected ok={want}, got {got:?}"));
+                for i in 0..3 {
+                    let l: SVec<HookCall> = invoke(e, &mods[i], "log", args!(e)).unwrap();
+                    let lv: Vec<(u32, usize, usize, i128)> = l.iter().map(|hc| (hc.kind, u.iter().position(|x| *x == hc.a).unwrap_or(9), u.iter().position(|x| *x == hc.b).unwrap_or(9), hc.amount)).collect();
+                    let wantv: Vec<(u32, usize, usize, i128)> = if got.is_ok() && registered.contains(&i) { vec![(kind, pa, pb, 10)] } else { vec![] };
+                    rep.check("log", lv == wantv, &format!("C04/log/dispatcher/{ep}/module-notifications"), || format!("module {i} (registered: {}): notifications {lv:?}, expected {wantv:?}", registered.contains(&i)));
+                }
+                rep.end_history();
+            }
+        }
+    }
+}
+
 // ------------------------------------------------------------------ random histories
 #[derive(Clone, Copy, PartialEq)]
 pub enum Mode {
@@ -614,8 +686,9 @@ pub fn history(cfg: &Cfg, rep: &mut Report, h: u64, steps: usize, mode: Mode) {
 }
 
 pub fn run(cfg: &Cfg, rep: &mut Report) {
-    rep.rule = "(a) exhaustive sweep (split over shards) of transfer and transfer_from under all 2^7 combinations of {paused, from frozen, to frozen, amount > free, id(from) fails, id(to) fails, compliance denies} and mint under 2^2, each in 3 variants (partial amount, self-transfer, whole balance) on a fresh token with sufficient balance and allowance; (b) seeded histories of mint/transfer/transfer_from/approve/forced_transfer/burn/recover_balance/freeze/unfreeze/set_address_frozen/pause/unpause with gate toggles in between, amounts around balance, free and frozen. Distinct case = (entry point, 7-bit gate vector, outcome) for (a) and (op, gate vector or freeze class, outcome) for (b).".into();
+    rep.rule = "(a) exhaustive sweep (split over shards) of transfer and transfer_from under all 2^7 combinations of {paused, from frozen, to frozen, amount > free, id(from) fails, id(to) fails, compliance denies} and mint under 2^2, each in 3 variants (partial amount, self-transfer, whole balance) on a fresh token with sufficient balance and allowance; (a') the library's own compliance dispatcher with 3 scripted logging modules: every entry point x every subset of registered modules {all, two, none} x every subset of denying modules; (b) seeded histories of mint/transfer/transfer_from/approve/forced_transfer/burn/recover_balance/freeze/unfreeze/set_address_frozen/pause/unpause with gate toggles in between, amounts around balance, free and frozen. Distinct case = (entry point, 7-bit gate vector, outcome) for (a) and (op, gate vector or freeze class, outcome) for (b).".into();
     gate_sweep(cfg, rep);
+    real_dispatcher(cfg, rep);
     let nh = cfg.pick(60u64, 400);
     let steps = cfg.pick(160usize, 300);
     for k in 0..nh {
